@@ -13,7 +13,10 @@ binding      : phase 1 runs every scenario un-cancelled and records the schedule
                ("within the read timeout plus a bounded grace period") is checked on free-running runs: the server
                falls silent, the caller cancels 0.3 / 3 / 12 ms into the query, with and without a deadline an hour
                away on its context; Do must return the context's error with the client closed within ReadTimeout (2 ms)
-               + 4 s (Trace_Prompt.tla: the fairness assumption of the liveness proof, as an obligation of the code)."""
+               + 4 s (Trace_Prompt.tla: the fairness assumption of the liveness proof, as an obligation of the code).
+               Cancellation during the handshake (Handshake!CancelEndsIt): real Dial runs cancelled while the client
+               waits for the server's hello and while its addendum write is blocked by a server that stopped reading
+               must return the context's error with the connection closed within the read time-out + 300 ms."""
 import json
 import os
 import random
@@ -102,6 +105,8 @@ def body(run):
     run.coverage["baseline_runs"] = len(runs)
     run.coverage["cancel_at_gate_scenarios"] = gates
     prompt(run, drv, rng)
+    import session as S
+    S.handshake_cancellation(run, PID, drv, rng, 20 if T else 6)
 
 
 def prompt(run, drv, rng):
